@@ -215,3 +215,46 @@ func VH_C04_settings() {
 	vAssert("C04.settings.close2", db2.Close() == nil)
 	vAssert("C04.settings.flushed_at_close", vFileExists(root+"/sod.vObj/"+n.UUID()+ext))
 }
+
+// VH_C04_readonly_session: applications call Create at every start.  A
+// session that only does that and reads (and then exits without Close, in
+// synchronous mode, or with it) leaves the directory as it found it: the
+// next handle loads without a corruption report and answers as before.
+func VH_C04_readonly_session() {
+	cfg := vhPickCfg()
+	field := vhRichFields[vChoice("field", len(vhRichFields))]
+	db, root := vhOpenRich(cfg)
+	var rows []vhRichRow
+	pre := vLen("pre", 1, vBound("PRE", 2))
+	for k := 0; k < pre; k++ {
+		o := vhNewRich(k, field)
+		if db.InsertOrUpdate(o) != nil {
+			vAssume(false)
+		}
+		rows = append(rows, vhRichRow{o.UUID(), vhRichStored(o)})
+	}
+	switch vChoice("same_handle", 2) {
+	case 0:
+		vAssert("C04.ro.close", db.Close() == nil)
+		db = Open(root)
+	case 1:
+		if cfg.async {
+			vAssert("C04.ro.flush", db.FlushAllAndCommit(&vRich{}) == nil)
+		}
+	}
+	// the read-only session
+	vAssert("C04.ro.create_again", db.Create(&vRich{}, vhSchema(cfg)) == nil)
+	n, err := db.Count(&vRich{})
+	vAssert("C04.ro.count", err == nil && n == len(rows))
+	if vChoice("exit", 2) == 1 {
+		vAssert("C04.ro.close2", db.Close() == nil)
+	}
+	// the next process
+	db2 := Open(root)
+	_, lerr := db2.Schema(&vRich{})
+	vAssert("C04.ro.next_load_clean", lerr == nil)
+	vhRichReads("C04.ro.next", db2, rows)
+	op := vhOps[vChoice("_sop", len(vhOps))]
+	vhRichSearch("C04.ro.next", db2, rows, field, op)
+	vAssert("C04.ro.next_control", db2.Control() == nil)
+}
